@@ -569,6 +569,22 @@ fn run_isolated_c08(ctx: &Ctx, set: &Set, part: &Part, iso: &Isolation, profile:
                 return;
             }
         };
+        // a CPU overrun of a generated query is a refutation only if the query is not expensive
+        // by its own meaning: nested absolute descendant queries inside filters over a document
+        // of a thousand nodes cost n^3 and more for any evaluator. Arbiter: the reference
+        // evaluator with its step budget on the same documents.
+        if let (Case::Str(q, _), Death::CpuTimeout(_)) = (&set.cases[idx], &death) {
+            if let Some(ast) = oracle::parse::analyze(q).ast {
+                let inherent = (0..set.docs.len()).any(|k| match oracle::eval::eval_locs(&ast, &oracle::json::J::from_value(&set.docs[k]), oracle::eval::Dev::default()) {
+                    Err(_) => true,
+                    Ok((_, _, steps)) => steps > 20_000_000,
+                });
+                if inherent {
+                    ctx.add_skipped("cpu-overrun-of-a-query-that-is-expensive-by-its-meaning (reference evaluator exceeds 20 M steps)", 1);
+                    return;
+                }
+            }
+        }
         if let Case::Ladder(kind, rung) = &set.cases[idx] {
             log.lock().unwrap().failed.entry((profile.to_string(), kind.to_string())).or_default().push((*rung, how.clone()));
             if *rung > required_rung(kind) && matches!(death, Death::CpuTimeout(_)) && armed.param(&format!("ladder:{}", kind)).is_none() {
